@@ -532,6 +532,9 @@ def skeleton(m: HdlcModel):
                 if bk == "unknown" and seen_loop:
                     trimmed_after = True  # judged by the buffer contract of the role `release consumed input`
                     continue
+                if bk == "clear" and seen_loop and _loop_consumes_all(m):
+                    trimmed_after = True  # nothing is unconsumed after the loop: emptying the buffer releases exactly the consumed input
+                    continue
                 res.append(Result("bad", "skeleton", f"buffer.{short}", f"read() calls buffer.{short} outside the per-octet step", e[-1]))
                 continue
             if e[0] in ("write", "mutate", "callm", "call", "setitem", "memo"):
@@ -656,6 +659,21 @@ def _eval_order(stmts):
 
 
 # ---------------------------------------------------------------------------------------------- buffer contracts
+def _loop_consumes_all(m: HdlcModel):
+    """the per-octet loop of read() is `while <buffer has unconsumed input>:` and is left in no other way: after it nothing is unconsumed"""
+    lp = getattr(m, "loop", None)
+    if not isinstance(lp, ast.While):
+        return False
+    if any(isinstance(n, (ast.Break, ast.Return)) for s_ in lp.body for n in ast.walk(s_)):
+        return False
+    t = lp.test
+    name = t.attr if isinstance(t, ast.Attribute) else (t.func.attr if isinstance(t, ast.Call) and isinstance(t.func, ast.Attribute) else None)
+    recv = t.value if isinstance(t, ast.Attribute) else (t.func.value if isinstance(t, ast.Call) and isinstance(t.func, ast.Attribute) else None)
+    if name is None or not (isinstance(recv, ast.Attribute) and isinstance(recv.value, ast.Name) and recv.value.id == "self" and recv.attr == m.roles.buffer):
+        return False
+    return m.buf.check(name, "avail").ok is True
+
+
 def buffer_usage(m: HdlcModel):
     """which buffer methods the reader uses, and in which role (from where they are called, not from their names)"""
     R = m.roles
@@ -721,6 +739,10 @@ def buffer_contracts(m: HdlcModel):
                 # a method that satisfies a stronger/other adequate contract in that role is fine (trim-to-flag where trim-to-position is needed)
                 if role == "trim-pos" and B.check(name, "trim-needle", m.flag).ok is True:
                     res.append(Result("ok", "buffer", inst, f"{name}(): {BUF_TEXT['trim-needle']}"))
+                    continue
+                # after a loop that runs until nothing is unconsumed, emptying the buffer *is* releasing the consumed octets
+                if role == "trim-pos" and B.check(name, "clear").ok is True and _loop_consumes_all(m):
+                    res.append(Result("ok", "buffer", inst, f"{name}(): empties the buffer, used where the per-octet loop has consumed everything"))
                     continue
                 res.append(Result("bad", "buffer", inst, f"input buffer, used as `{BUF_TEXT.get(role, role)}`: {v.why}", v.line, witness=v.witness))
             else:
